@@ -106,8 +106,7 @@ func runResourceManager(r Round) *outcome {
 		})
 	}
 	rc.release()
-	if ok, dump := rc.waitBlocked(10*time.Second, 40*time.Second); !ok {
-		o.failf("C16/dispose/resource-manager/dispose-all-did-not-return", "DisposeAll did not return within 10s; goroutines:\n%s", dump)
+	if !rc.mustReturn(o, base, "DisposeAll/Register") {
 		return o
 	}
 	rc.measure(o)
@@ -240,8 +239,7 @@ func runDispose(r Round) *outcome {
 		})
 	}
 	rc.release()
-	if ok, dump := rc.waitBlocked(10*time.Second, 40*time.Second); !ok {
-		o.failf("C16/dispose/close-did-not-return", "a Close/AddCleanHandler call did not return within 10s"+"; goroutines inside the code under test:\n%s", dump)
+	if !rc.mustReturn(o, base, "Close/AddCleanHandler") {
 		return o
 	}
 	rc.measure(o)
